@@ -43,8 +43,10 @@ def check(prog, ctx):
     outs = sx.run()
     a, b = sx.symbol(f1.params[1]['name'], 'double'), sx.symbol(f1.params[2]['name'], 'double')
     seen = {}
-    eqpath = [o for o in outs if o.kind == 'return' and o.cond == sp.Eq(a, b)]
-    ctx.decide('C13.a', 'Integrate:equal-limits', f1, len(eqpath) == 1 and eqpath[0].value == 0, 'a==b returns 0 before any evaluation',
+    # equal limits: the returning path(s) whose condition contains a == b (possibly together with "the method is one of the
+    # recognised names", so that an unknown name is still rejected)
+    eqpath = [o for o in outs if o.kind == 'return' and sp.Eq(a, b) in atoms_of(o.cond)]
+    ctx.decide('C13.a', 'Integrate:equal-limits', f1, len(eqpath) >= 1 and all(o.value == 0 for o in eqpath), 'a==b returns 0 before any evaluation',
                'equal limits are not short-cut to 0')
     for o in outs:
         if o.kind != 'return' or o in eqpath:
